@@ -131,6 +131,7 @@ type rec struct {
 	limK     int
 	limProbe int    // events probed
 	limBad   string // first event at which more operations were in flight than permits taken
+	frees    []int  // per recorded token: the free permits read right after it (-1: not read)
 	onep     bool   // Case.OneP
 }
 
@@ -162,6 +163,12 @@ func (r *rec) ev(tok string, dsrc, ddst int) {
 		// still inside r.mu: no other task can record an event, and a task between two of its events keeps its permit
 		free := r.freePermits()
 		r.limProbe++
+		if tok != "" {
+			for len(r.frees) < len(r.toks)-1 {
+				r.frees = append(r.frees, -1)
+			}
+			r.frees = append(r.frees, free)
+		}
 		if taken := r.limK - free; r.limBad == "" && (r.srcIn > taken || r.dstIn > taken) {
 			r.limBad = fmt.Sprintf("at event %d (%s): %d source reads and %d destination operations in flight, but only %d of %d permits taken", len(r.toks)-1, tok, r.srcIn, r.dstIn, taken, r.limK)
 		}
@@ -580,6 +587,7 @@ type Result struct {
 	LimProbes int    // Case.OwnLim: events at which the limiter was read
 	LimBad    string // first event with more operations in flight than permits taken
 	LimFree   int    // free permits after the call returned (must be all of them)
+	Frees     []int  // Case.OwnLim: per token of Toks, the free permits read right after it (-1: none)
 }
 
 // CbIsSet reports whether callback kind (pre post skip mounted mountfrom) is set in this case.
@@ -978,6 +986,7 @@ func Execute(c *Case) *Result {
 	}
 	if r.lim != nil {
 		res.LimProbes, res.LimBad, res.LimFree = r.limProbe, r.limBad, r.freePermits()
+		res.Frees = append([]int(nil), r.frees...)
 	}
 	res.Toks = r.toks
 	res.Pro = r.pro
